@@ -501,6 +501,51 @@ func runC14(c *engine.Ctx) {
 						c.Probe("differ_pairs.empty-dimensions")
 					}
 
+					// ---- constructed pairs on the command: a list of lines IS its lines joined by line breaks (so
+					// some spellings collide by definition), and an empty first line is a line
+					if c.Sched.Draw(4, "c14:cmdlines?") == 3 {
+						mkc := func(key string, v *gen.Node) []byte {
+							st := j.step.Clone()
+							st.Del("signature")
+							st.Del("command")
+							st.Del("commands")
+							st.Set(key, v)
+							cs := new(pipeline.CommandStep)
+							if cs.UnmarshalJSON(st.ToJSON(nil)) != nil {
+								return nil
+							}
+							pay, err := signOnePayload(c, cs, kp, j.repoURL, penv)
+							if err != nil {
+								return nil
+							}
+							return pay
+						}
+						w := gen.Word(p, "c14:cmdword")
+						same := [][2][]byte{
+							{mkc("commands", gen.Seq(gen.Str(""), gen.Str(w))), mkc("command", gen.Str("\n"+w))},
+							{mkc("commands", gen.Seq(gen.Str(w), gen.Str(""))), mkc("command", gen.Str(w+"\n"))},
+							{mkc("command", gen.Seq(gen.Str(""), gen.Str(""), gen.Str(w))), mkc("commands", gen.Str("\n\n"+w))},
+							{mkc("commands", gen.Seq(gen.Null(), gen.Str(w))), mkc("commands", gen.Seq(gen.Str(""), gen.Str(w)))},
+						}
+						for i, pr := range same {
+							if pr[0] != nil && pr[1] != nil && !bytes.Equal(pr[0], pr[1]) {
+								c.Fail("C14.collide", "command-lines-spelling", "two spellings of the same command text (pair %d: a list with an empty line vs the joined text) have different payloads\n%s\n%s", i, truncate(string(pr[0]), 500), truncate(string(pr[1]), 500))
+							}
+						}
+						diff := [][2][]byte{
+							{mkc("commands", gen.Seq(gen.Str(w))), mkc("commands", gen.Seq(gen.Str(""), gen.Str(w)))},
+							{mkc("commands", gen.Seq(gen.Str(""), gen.Str(w))), mkc("commands", gen.Seq(gen.Str(""), gen.Str(""), gen.Str(w)))},
+							{mkc("command", gen.Str("")), mkc("commands", gen.Seq(gen.Str(""), gen.Str("")))},
+						}
+						for i, pr := range diff {
+							if pr[0] != nil && pr[1] != nil && bytes.Equal(pr[0], pr[1]) {
+								c.Fail("C14.differ", "command lines: leading empty line", "command texts that differ in leading empty lines (pair %d) have the SAME payload: %s", i, truncate(string(pr[0]), 500))
+							}
+						}
+						judged["collide:command-lines"] = true
+						c.Probe("command_line_spellings_judged")
+					}
+
 					// ---- constructed pairs: a value and the string that spells it are different contents
 					if c.Sched.Draw(3, "c14:typed?") == 2 {
 						mkp := func(v *gen.Node) []byte {
